@@ -62,9 +62,26 @@ def run(case):
             return None
         raise ValueError('bad op %r' % (o,))
 
+    def snoop(me, entity, checked):
+        # read-only queries from inside the callback; not guarded: an exception
+        # leaves the callback and becomes the outcome of the enclosing operation
+        for c in classes[1:]:
+            world.get(c)
+            world.has_component(entity, c)
+            world.get_component(entity, c)
+        tuple(world.entities)
+        if checked:
+            e = ent_z(entity)
+            if e != -99:
+                log.append(['q', ['exists', e, bool(world.entity_exists(entity))]])
+                log.append(['q', ['comps', e, [lid.get(id(c), -99)
+                                               for c in world.get_components(entity)]]])
+            log.append(['q', ['ish', me._lid, bool(world.is_handler(me))]])
+
     def callback(kind, script):
         def cb(self, entity, w):
             log.append(['call', kind, self._lid, ent_z(entity), w is world])
+            snoop(self, entity, True)
             d = depth[0]
             n = ncalls[0]
             depth[0] += 1
@@ -83,6 +100,7 @@ def run(case):
                         except Exception:
                             exc = 2
                         log.append(['ret', ret, exc])
+                        snoop(self, entity, False)
             finally:
                 depth[0] -= 1
             log.append(['end'])
@@ -188,6 +206,8 @@ def enc_lent(x):
         return '(LRet %s %s)' % (opt(None if x[1] is None else z(x[1])), z(x[2]))
     if x[0] == 'call':
         return '(LCall %s %s %s %s)' % (W.CK[x[1]], z(x[2]), z(x[3]), b(x[4]))
+    if x[0] == 'q':
+        return '(LQ %s)' % W.enc_q(x[1])
     return {'end': 'LEnd', 'proc': 'LProc'}[x[0]]
 
 
